@@ -81,8 +81,8 @@ Proof. exact recover_mixed_refused. Qed.
 
 (* what the shipped code did before the repairs c33c2c0 / b8ab280 (for the record) *)
 Theorem C18_insert_pk_refuted_prefix :
-  recover_prefix (Some [[VNull]]) 4%Z 1 = Some [[VNull]] /\ assigned_keys (Some [[VNull]]) 4%Z 1 = [[VInt 4%Z]]
-  /\ recover_prefix None 4%Z 2 = None.
+  recover_prefix (Some [[VNull]]) (4, 1)%Z 1 = Some [[VNull]] /\ assigned_keys (Some [[VNull]]) (4, 1)%Z 1 = [[VInt 4%Z]]
+  /\ recover_prefix None (4, 1)%Z 2 = None.
 Proof. exact recover_prefix_refuted. Qed.
 
 (* the argument index computed for a key placeholder of a multi-row VALUES list is its textual position among the placeholders *)
@@ -140,8 +140,8 @@ Proof. split; vm_compute; reflexivity. Qed.
 
 Example C18_insert_nonvacuous :
   insert_supported (Some [[VInt 7]; [VInt 9]]%Z) 2 = true /\ insert_supported None 3 = true
-  /\ insert_supported (Some [[VNull]; [VInt 0]]%Z) 2 = true /\ recover (Some [[VNull]; [VInt 0]]%Z) 4%Z 2 = Some [[VInt 4]; [VInt 5]]%Z
-  /\ recover None 4%Z 3 = Some [[VInt 4]; [VInt 5]; [VInt 6]]%Z
+  /\ insert_supported (Some [[VNull]; [VInt 0]]%Z) 2 = true /\ recover (Some [[VNull]; [VInt 0]]%Z) (4, 1)%Z 2 = Some [[VInt 4]; [VInt 5]]%Z
+  /\ recover None (4, 3)%Z 3 = Some [[VInt 4]; [VInt 7]; [VInt 10]]%Z
   /\ go_pk_idx [[false; true; false]; [true; true; true]; [false; false; true]] 1 = [Some 0; Some 2; None]%Z.
 Proof. repeat split; vm_compute; reflexivity. Qed.
 
